@@ -351,6 +351,14 @@ def r3(cx):
     sd = [c for c in f.calls() if c.q.endswith("Store::deploy")]
     de = [c for c in f.calls() if c.q.endswith("ModelExecutor::deploy_event")]
     ok = len(va) == 1 and len(sd) == 1 and len(de) == 1 and f.dominates(va[0].b, sd[0].b) and classify(m, f, va[0])[0] == "PROPAGATED" and f.dominates(sd[0].b, de[0].b)
+    # what valid() checks is what start() builds: it loads the model into a NodeTree with the builder itself (every node
+    # the execution tree will contain goes through NodeTree::make, which refuses a duplicate id). A hand-written walk over
+    # the model can forget a container the builder visits (the handlers of an act)
+    vf = m.one(r"^acts::model::workflow::Workflow::valid$")
+    from vlib.ts import Summaries
+    sm_ = cx.shared("summaries", lambda: Summaries(m))
+    reach_build = vf.q in sm_.reaches({q for q in m.fns if q.endswith("tree::build::build_workflow")})
+    cx.ob("C20.R3", "valid:builds-the-tree", reach_build, "Workflow::valid checks the model by building its node tree (reaches tree::build::build_workflow)", vf.loc())
     cx.ob("C20.R3", "deploy:validate-first", ok, "deploy validates the model (error propagated) before anything is stored, then registers the events", f.loc())
     same = len(sd) == 1 and pa.root(f, sd[0].args[1])[:2] == ("param", 2) and len(va) == 1 and pa.root(f, va[0].args[0])[:2] == ("param", 2)
     cx.ob("C20.R3", "deploy:same-model", same, "the model validated is the model stored (the argument)", f.loc())
@@ -404,7 +412,7 @@ def r3(cx):
     flds_ = [x for x in (arg[3] if arg is not None and arg[0] == "param" else ()) if x != "*"]
     from_on = arg is not None and arg[0] == "param" and arg[1] == 2 and (flds_ == ["on"] or (not flds_ and ok and walked_via_model))
     cx.ob("C20.R3", "events:from-on", from_on, "the acts registered are the model's `on` list", de[0].loc if de else f.loc())
-    cx.floor("C20.R3", 9)
+    cx.floor("C20.R3", 10)
 
 
 def _is_stored_ver(r):
